@@ -1,6 +1,6 @@
 (* C07: exactly-once, only by an acceptor or the unhandled consumer, mis-addressed packets inert, no head-of-line blocking. *)
 From Coq Require Import List Bool Arith Lia Permutation.
-Require Import GV.Model.Dispatch.
+Require Import GV.Gen.DispatchFacts GV.Model.Dispatch.
 Import ListNotations.
 
 Definition ids (s : st) := map fst (q s) ++ map (fun p => fst (fst p)) (popped s).
@@ -9,6 +9,7 @@ Definition Inv (s : st) : Prop :=
   NoDup (ids s) /\ (forall i, In i (ids s) <-> i < nextid s) /\
   (forall i d k, In (i, d, K k) (popped s) -> accepts k d = true) /\
   (marked s = true -> q s <> []).
+Definition InvU (s : st) : Prop := uph s <= unhandled_patience.
 
 Lemma pop_by_inv s c : Inv s -> (forall i d r k, q s = (i, d) :: r -> c = K k -> accepts k d = true) -> Inv (pop_by s c).
 Proof.
@@ -42,11 +43,11 @@ Lemma step_inv s l : Inv s -> Inv (step s l).
 Proof.
   intros HI. destruct l as [d|[|k]]; cbn [step].
   - apply put_inv; exact HI.
-  - destruct (uph s) eqn:Eu.
-    + assert (HI' : Inv (mk (q s) (marked s) false (popped s) (nextid s))) by (destruct HI as [A [B [C D]]]; unfold Inv, ids in *; simpl; auto).
-      destruct (marked s); auto. apply pop_by_inv; auto. intros; discriminate.
+  - destruct (uph s) as [|n] eqn:Eu.
     + destruct (q s) eqn:Eq; auto. destruct HI as [Hn [Hr [Ha Hm]]]. unfold Inv, ids in *; simpl in *. rewrite Eq in *.
       repeat split; auto; try apply Hr. discriminate.
+    + assert (HI' : forall u, Inv (mk (q s) (marked s) u (popped s) (nextid s))) by (intros u; destruct HI as [A [B [C D]]]; unfold Inv, ids in *; simpl; auto).
+      destruct (marked s); auto. destruct n; auto. apply pop_by_inv; auto. intros; discriminate.
   - destruct (q s) as [|[i d] r] eqn:Eq; auto. destruct (accepts k d) eqn:Ea; auto.
     assert (HP : Inv (pop_by s (K k))).
     { apply pop_by_inv; auto. intros i0 d0 r0 k0 Hq Hk. rewrite Eq in Hq. inversion Hq; inversion Hk; subst. auto. }
@@ -107,10 +108,11 @@ Lemma step_q_ids t l y : In y (map fst (q (step t l))) -> In y (map fst (q t)) \
 Proof.
   destruct l as [d|[|k]]; cbn [step].
   - unfold put; cbn. rewrite map_app. cbn. intros C. apply in_app_or in C. destruct C as [C|[C|[]]]; [left; exact C|right; symmetry; exact C].
-  - destruct (uph t).
-    + destruct (marked t); cbn [q]; [|auto]. destruct (pop_by_q (mk (q t) true false (popped t) (nextid t)) Unh) as [E _]. rewrite E. cbn [q].
-      rewrite map_tl. intros C. left. apply in_tl. exact C.
+  - destruct (uph t) as [|n].
     + destruct (q t) eqn:E; cbn [q]; rewrite ?E; intros C; left; exact C.
+    + destruct (marked t); cbn [q]; [|auto]. destruct n; cbn [q]; [|auto].
+      destruct (pop_by_q (mk (q t) true 0 (popped t) (nextid t)) Unh) as [E _]. rewrite E. cbn [q].
+      rewrite map_tl. intros C. left. apply in_tl. exact C.
   - destruct (q t) as [|[i d] r0] eqn:E; [rewrite E; auto|]. destruct (accepts k d); [|rewrite E; auto].
     assert (P : forall z, In z (map fst (q (pop_by t (K k)))) -> In z (map fst (q t))).
     { intros z Hz. destruct (pop_by_q t (K k)) as [Eq _]. rewrite Eq, map_tl in Hz. apply in_tl. exact Hz. }
@@ -124,9 +126,10 @@ Lemma step_nextid t l : nextid t <= nextid (step t l).
 Proof.
   destruct l as [d|[|k]]; cbn [step].
   - unfold put; cbn. lia.
-  - destruct (uph t).
-    + destruct (marked t); cbn [nextid]; [|lia]. destruct (pop_by_q (mk (q t) true false (popped t) (nextid t)) Unh) as [_ E]. rewrite E. cbn. lia.
+  - destruct (uph t) as [|n].
     + destruct (q t); cbn; lia.
+    + destruct (marked t); cbn [nextid]; [|lia]. destruct n; cbn [nextid]; [|lia].
+      destruct (pop_by_q (mk (q t) true 0 (popped t) (nextid t)) Unh) as [_ E]. rewrite E. cbn. lia.
   - destruct (q t) as [|[i d] r0] eqn:E; [lia|]. destruct (accepts k d); [|lia].
     destruct (pop_by_q t (K k)) as [_ En]. destruct d as [ac|ours inner]; [lia|]. destruct ours; [|lia]. destruct (Nat.eqb k PACKET_CLASS); [|lia].
     unfold put; cbn [nextid]. lia.
@@ -139,65 +142,63 @@ Proof.
   - pose proof (step_nextid t l). lia.
 Qed.
 
-(* no head-of-line blocking: whatever the head is, three polls of the unhandled consumer remove it, however many datagrams
-   arrive in between and even if nobody else ever polls *)
-Definition puts_only (ls : list label) : Prop := Forall (fun l => match l with Put _ => True | _ => False end) ls.
-Lemma puts_keep_head ls : puts_only ls -> forall s x r, q s = x :: r ->
-  exists r', q (run s ls) = x :: r' /\ marked (run s ls) = marked s /\ uph (run s ls) = uph s.
+(* the unhandled consumer's phase counter never exceeds its patience *)
+Lemma step_invU s l : InvU s -> InvU (step s l).
 Proof.
-  induction ls as [|l t IH]; intros H s x r Hq; [exists r; auto|]. inversion H as [|? ? Hl Ht]; subst. destruct l as [d|c]; [|contradiction].
-  cbn [run fold_left]. destruct (IH Ht (step s (Put d)) x (r ++ [(nextid s, d)])) as [r' [A [B C]]]; [cbn; rewrite Hq; reflexivity|].
-  exists r'. auto.
+  unfold InvU. intros H. destruct l as [d|[|k]]; cbn [step].
+  - unfold put; cbn. exact H.
+  - destruct (uph s) as [|n] eqn:Eu.
+    + destruct (q s); cbn; lia.
+    + destruct (marked s); cbn [uph]; [|lia]. destruct n; [|cbn; lia]. unfold pop_by. cbn [q]. destruct (q s) as [|[i d] r]; cbn; lia.
+  - destruct (q s) as [|[i d] r] eqn:Eq; auto. destruct (accepts k d); auto.
+    assert (U : uph (pop_by s (K k)) = uph s) by (unfold pop_by; rewrite Eq; reflexivity).
+    destruct d as [a|ours inner]; [lia|]. destruct ours; [|lia]. destruct (Nat.eqb k PACKET_CLASS); [|lia]. unfold put; cbn [uph]. lia.
 Qed.
 
-Theorem head_leaves_within_three_unhandled_polls s x r a b c :
-  Inv s -> q s = x :: r -> puts_only a -> puts_only b -> puts_only c ->
-  let s' := run s (a ++ [Poll Unh] ++ b ++ [Poll Unh] ++ c ++ [Poll Unh]) in
-  ~ In (fst x) (map fst (q s')).
+(* no head-of-line blocking: whatever the head is, patience + 2 polls of the unhandled consumer remove it, however many datagrams
+   arrive in between and even if nobody else ever polls *)
+Lemma patience_pos : 1 <= unhandled_patience.
+Proof. unfold unhandled_patience. lia. Qed.
+Definition quiet_label (l : label) : bool := match l with Put _ | Poll Unh => true | _ => false end.
+Definition unh_polls (ls : list label) : nat := List.length (filter (fun l => match l with Poll Unh => true | _ => false end) ls).
+Definition rank (s : st) : nat :=
+  match uph s with O => S unhandled_patience | S n => if marked s then S n else S (S unhandled_patience) end.
+
+Lemma head_leaves_when_polled ls : forall s x r,
+  Inv s -> q s = x :: r -> forallb quiet_label ls = true -> rank s <= unh_polls ls ->
+  ~ In (fst x) (map fst (q (run s ls))).
 Proof.
-  intros HI Hq Ha Hb Hc s'. unfold s', run. rewrite !fold_left_app. cbn [fold_left].
-  fold (run s a). destruct (puts_keep_head a Ha s x r Hq) as [r1 [Q1 [M1 U1]]].
-  assert (I1 : Inv (run s a)). { clear - HI. unfold run. revert s HI. induction a; simpl; intros; auto. apply IHa. now apply step_inv. }
-  set (s1 := run s a) in *.
-  assert (Hlt : fst x < nextid s1).
-  { destruct I1 as [_ [B _]]. apply B. unfold ids. rewrite Q1. cbn. left. reflexivity. }
-  (* first unhandled poll *)
-  destruct (uph s1) eqn:Eu.
-  - destruct (marked s1) eqn:Em.
-    + (* it was mid-sleep with the mark still set: this poll pops x *)
-      replace (step (fold_left step c (step (fold_left step b (step s1 (Poll Unh))) (Poll Unh))) (Poll Unh))
-        with (fold_left step (b ++ [Poll Unh] ++ c ++ [Poll Unh]) (step s1 (Poll Unh))) by (rewrite !fold_left_app; reflexivity).
-      apply gone_forever.
-      * cbn [step]. rewrite Eu, Em. unfold pop_by. cbn [q]. rewrite Q1. destruct x as [i d]. cbn.
-        destruct I1 as [N _]. unfold ids in N. rewrite Q1 in N. cbn in N. inversion N as [|? ? Hn _]; subst. intros C. apply Hn. apply in_or_app. left. exact C.
-      * cbn [step]. rewrite Eu, Em. unfold pop_by. cbn [q]. rewrite Q1. destruct x. cbn. exact Hlt.
-    + (* stale wake: nothing popped, phase cleared; second poll marks, third pops *)
-      set (s2 := step s1 (Poll Unh)).
-      assert (I2 : Inv s2) by (apply step_inv; exact I1).
-      assert (Q2 : q s2 = x :: r1 /\ uph s2 = false) by (unfold s2; cbn [step]; rewrite Eu, Em; cbn; split; auto).
-      destruct Q2 as [Q2 U2]. fold s2.
-      destruct (puts_keep_head b Hb s2 x r1 Q2) as [r2 [Q3 [M3 U3]]]. fold (run s2 b). set (s3 := run s2 b) in *.
-      assert (I3 : Inv s3). { clear - I2. unfold s3, run. revert I2. generalize s2. induction b; simpl; intros; auto. apply IHb. now apply step_inv. }
-      set (s4 := step s3 (Poll Unh)).
-      assert (I4 : Inv s4) by (apply step_inv; exact I3).
-      assert (Q4 : q s4 = x :: r2 /\ uph s4 = true /\ marked s4 = true) by (unfold s4; cbn [step]; rewrite U3, U2, Q3; cbn; auto).
-      destruct Q4 as [Q4 [U4 M4]]. fold s4.
-      destruct (puts_keep_head c Hc s4 x r2 Q4) as [r3 [Q5 [M5 U5]]]. fold (run s4 c). set (s5 := run s4 c) in *.
-      assert (I5 : Inv s5). { clear - I4. unfold s5, run. revert I4. generalize s4. induction c; simpl; intros; auto. apply IHc. now apply step_inv. }
-      cbn [step]. rewrite U5, U4, M5, M4. unfold pop_by. cbn [q]. rewrite Q5. destruct x as [i d]. cbn.
-      destruct I5 as [N _]. unfold ids in N. rewrite Q5 in N. cbn in N. inversion N as [|? ? Hn _]; subst. intros C. apply Hn. apply in_or_app. left. exact C.
-  - (* idle: first poll marks, second pops *)
-    set (s2 := step s1 (Poll Unh)).
-    assert (I2 : Inv s2) by (apply step_inv; exact I1).
-    assert (Q2 : q s2 = x :: r1 /\ uph s2 = true /\ marked s2 = true) by (unfold s2; cbn [step]; rewrite Eu, Q1; cbn; auto).
-    destruct Q2 as [Q2 [U2 M2]]. fold s2.
-    destruct (puts_keep_head b Hb s2 x r1 Q2) as [r2 [Q3 [M3 U3]]]. fold (run s2 b). set (s3 := run s2 b) in *.
-    assert (I3 : Inv s3). { clear - I2. unfold s3, run. revert I2. generalize s2. induction b; simpl; intros; auto. apply IHb. now apply step_inv. }
-    replace (step (fold_left step c (step s3 (Poll Unh))) (Poll Unh))
-      with (fold_left step (c ++ [Poll Unh]) (step s3 (Poll Unh))) by (rewrite !fold_left_app; reflexivity).
-    apply gone_forever.
-    + cbn [step]. rewrite U3, U2, M3, M2. unfold pop_by. cbn [q]. rewrite Q3. destruct x as [i d]. cbn.
-      destruct I3 as [N _]. unfold ids in N. rewrite Q3 in N. cbn in N. inversion N as [|? ? Hn _]; subst. intros C. apply Hn. apply in_or_app. left. exact C.
-    + cbn [step]. rewrite U3, U2, M3, M2. unfold pop_by. cbn [q]. rewrite Q3. destruct x. cbn.
-      destruct I3 as [_ [B _]]. apply B. unfold ids. rewrite Q3. cbn. left. reflexivity.
+  induction ls as [|l t IH]; intros s x r HI Hq Hl Hr.
+  - unfold rank in Hr. cbn in Hr. destruct (uph s); [lia|]. destruct (marked s); lia.
+  - cbn [forallb] in Hl. apply andb_prop in Hl. destruct Hl as [Hl Ht]. unfold run. cbn [fold_left]. fold (run (step s l) t).
+    destruct l as [d|[|k]]; [| |discriminate].
+    + (* an arrival: the head, the mark and the phase stay *)
+      apply (IH (step s (Put d)) x (r ++ [(nextid s, d)])); [apply step_inv; exact HI|cbn; rewrite Hq; reflexivity|exact Ht|].
+      unfold rank in *. cbn [step put uph marked]. unfold unh_polls in *. cbn [filter] in Hr. exact Hr.
+    + (* a poll of the unhandled consumer: the head goes, or the rank drops *)
+      assert (Hlt : fst x < nextid s).
+      { destruct HI as [_ [B _]]. apply B. unfold ids. rewrite Hq. cbn. left. reflexivity. }
+      assert (Hnd : ~ In (fst x) (map fst r)).
+      { destruct HI as [N _]. unfold ids in N. rewrite Hq in N. cbn in N. inversion N as [|? ? Hn _]; subst. intros C. apply Hn. apply in_or_app. left. exact C. }
+      unfold unh_polls in Hr. cbn [filter List.length] in Hr. fold (unh_polls t) in Hr.
+      unfold rank in Hr. cbn [step]. destruct (uph s) as [|n] eqn:Eu.
+      * rewrite Hq. apply (IH _ x r); [pose proof (step_inv s (Poll Unh) HI) as K; cbn [step] in K; rewrite Eu, Hq in K; exact K|reflexivity|exact Ht|].
+        unfold rank. cbn [uph marked]. pose proof patience_pos as PP. destruct unhandled_patience; lia.
+      * destruct (marked s) eqn:Em.
+        -- destruct n as [|m].
+           ++ unfold run. apply gone_forever; unfold pop_by; cbn [q]; rewrite Hq; destruct x as [i d]; cbn; [exact Hnd|exact Hlt].
+           ++ apply (IH _ x r); [pose proof (step_inv s (Poll Unh) HI) as K; cbn [step] in K; rewrite Eu, Em in K; exact K|exact Hq|exact Ht|].
+              unfold rank. cbn [uph marked]. rewrite ?Em. lia.
+        -- apply (IH _ x r); [pose proof (step_inv s (Poll Unh) HI) as K; cbn [step] in K; rewrite Eu, Em in K; exact K|exact Hq|exact Ht|].
+           unfold rank. cbn [uph marked]. lia.
 Qed.
+
+Theorem head_leaves_within_patience_plus_two_polls s x r ls :
+  Inv s -> InvU s -> q s = x :: r -> forallb quiet_label ls = true -> unhandled_patience + 2 <= unh_polls ls ->
+  ~ In (fst x) (map fst (q (run s ls))).
+Proof.
+  intros HI HU Hq Hl Hn. apply (head_leaves_when_polled ls s x r HI Hq Hl). unfold rank, InvU in *. destruct (uph s); [lia|]. destruct (marked s); lia.
+Qed.
+Theorem reachable_InvU ls : InvU (run init ls).
+Proof. unfold run. assert (H : InvU init) by (unfold InvU, init; cbn; lia). revert H. generalize init. induction ls; simpl; intros; auto. apply IHls. now apply step_invU. Qed.
+
